@@ -323,6 +323,9 @@ class Engine:
             st.locs['kwargs'] = DictC({})
         if args.vararg:
             st.env[args.vararg.arg] = ()
+        if getattr(c, 'body_from', None) is not None:
+            for nm, spec in getattr(c, 'locals', {}).items():
+                st.env[nm] = spec.make(st, nm) if isinstance(spec, Sort) else spec
         for k, v in c.ghost_init.items():
             st.ghost[k] = v(View(st, self)) if callable(v) else v
         if getattr(c, 'pre_state', None):
@@ -332,7 +335,16 @@ class Engine:
         for d in TStr.distinct():
             st.assume(d)
         self.old = st.copy()
-        outs = self.block(self.fn.body, st)
+        body = self.fn.body
+        bf = getattr(c, 'body_from', None)
+        if bf is not None:
+            # mechanical slice: the statements before the first top-level statement whose source starts with ``bf`` are
+            # dropped; the locals they define are inputs of the contract (``c.locals``), arbitrary within their sorts
+            idx = [i for i, s_ in enumerate(body) if ast.unparse(s_).startswith(bf)]
+            if not idx:
+                raise Unsupported('slice marker %r not found among the top-level statements' % bf)
+            body = body[idx[0]:]
+        outs = self.block(body, st)
         for s, kind, payload in outs:
             if kind is None:
                 self.exits.append((s, 'return', None))
@@ -1553,6 +1565,10 @@ class Engine:
                 lo = None if sl.lower is None else self.ev(sl.lower, st)
                 hi = None if sl.upper is None else self.ev(sl.upper, st)
                 return base[lo:hi]
+        if isinstance(base, str) and not isinstance(sl, ast.Slice):
+            k = self.ev(sl, st)
+            if isinstance(k, int):
+                return base[k]
         h = self.c.calls.get('__getitem__')
         if h is not None:
             r = h(self, st, [base, sl], {}, None)
@@ -2407,6 +2423,14 @@ class Engine:
                     return None
                 if name == 'clear':
                     st.set_content(base, SeqC(c.arr, z3.IntVal(0), c.nans))
+                    return None
+                if name == 'extend' and isinstance(args[0], Ref) and isinstance(st.content(args[0]), (ArrC, SeqC)):
+                    o = st.content(args[0])
+                    oa = o.vals if isinstance(o, ArrC) else o.arr
+                    if c.nans is not None or o.nans is not None:
+                        raise Unsupported('extend of NaN-tracked sequences')
+                    k = fresh('k', I)
+                    st.set_content(base, SeqC(z3.Lambda([k], z3.If(k < c.n, c.arr[k], oa[k - c.n])), c.n + o.n, None))
                     return None
             if isinstance(c, ListC):
                 if name == 'append':
